@@ -78,7 +78,7 @@ def worker(ctx, job):
     from vf.flo import relrefs as R
     for seed in job["seeds"]:
         rng = random.Random(seed)
-        prog = R.gen_program(rng, size=job.get("size", 1.0))
+        prog = R.gen_program(rng, size=job.get("size", 1.0), deep=(seed % 3 == 2))
         naming = prog["naming"]
         text = R.render(prog)
         sites = R.sites(prog)
@@ -299,7 +299,7 @@ MEASURED48 = {
 
 
 def run(ctx):
-    n = ctx.pick(48, 4000)
+    n = ctx.pick(96, 4000)
     seeds = [ctx.rng.randrange(1 << 30) for _ in range(n)]
     k = 16
     ctx.shard([{"seeds": seeds[i::k]} for i in range(k)], timeout=ctx.pick(120, 1500))
